@@ -591,6 +591,161 @@ def untypedArrayType : VT → Option VT
   | .Long => some .LongArray | .Float => some .FloatArray | .String => some .StringArray
   | .Char => some .CharArray | _ => none
 
+/-! ### the evaluator's own primitives
+
+Everything `eval`/`exec` do to the state goes through the named operations above and below, the two brackets
+`withScope`/`withFrame`, `pure`, `bind` and `throw`; `Eval/Closed.lean` turns that into an induction principle
+("what the primitives preserve, every program preserves"). -/
+
+def getHasReturn : EM Bool := do return (← get).hasReturn
+def setHasReturn (b : Bool) : EM Unit := modify fun st => { st with hasReturn := b }
+def clearReturn : EM Unit := modify fun st => { st with returnValue := {}, hasReturn := false }
+def getReturnValue : EM Value := do return (← get).returnValue
+def setReturnValue (v : Value) : EM Unit := modify fun st => { st with returnValue := v }
+def lookupFnM (name : String) : EM (Option FuncDecl) := do return (← get).lookupFn name
+def echoLine (line : String) : EM Unit := modify fun st =>
+  if st.echoEnabled then { st with echo := line :: st.echo } else st
+
+/-- `{ … }` and `for`: a scope around `body` -/
+def withScope {α : Type} (body : EM α) : EM α := do
+  beginScope
+  let r ← body
+  endScope
+  pure r
+
+/-- a call boundary: new frame of one scope, the caller's return flag put aside, the frame's scope ended and the
+caller's frame depth and flag restored afterwards -/
+def withFrame {α : Type} (body : EM α) : EM α := do
+  let saved ← enterFrame
+  let prev ← getHasReturn
+  let r ← body
+  endScope
+  leaveFrame saved
+  setHasReturn prev
+  pure r
+
+def declareParams : List (Param × Value) → EM Unit
+  | [] => pure ()
+  | (prm, a) :: rest => do
+    declareVar prm.name { value := a, tracked := false, initialized := true }
+    declareParams rest
+
+def postfixUpdate (op : String) (current : Value) : Value :=
+  if op == "++" then
+    if current.type == .Float then { current with floatValue := current.floatValue + 1.0 }
+    else if current.type == .Long then { current with longValue := wrap64 (current.longValue + 1) }
+    else if current.type == .Int then { current with intValue := wrap32 (current.intValue + 1) }
+    else current
+  else if op == "--" then
+    if current.type == .Float then { current with floatValue := current.floatValue - 1.0 }
+    else if current.type == .Long then { current with longValue := wrap64 (current.longValue - 1) }
+    else if current.type == .Int then { current with intValue := wrap32 (current.intValue - 1) }
+    else current
+  else current
+
+/-- a call of one of the built-in gates with already evaluated arguments -/
+def applyBuiltin (name : String) (argv : List Value) (p : P) : EM Unit := do
+  let q0 := (argv.getD 0 {}).qubit
+  let a1 := argv.getD 1 {}
+  if name == "cx" then
+    ensureQubitActive q0 p
+    ensureQubitActive a1.qubit p
+    if q0 == a1.qubit then rtErr p "cx requires distinct control and target qubits"
+    else simCx q0 a1.qubit
+  else
+    ensureQubitActive q0 p
+    let q := q0.toNat
+    if name == "h" then simGate (.h q)
+    else if name == "x" then simGate (.x q)
+    else if name == "y" then simGate (.y q)
+    else if name == "z" then simGate (.z q)
+    else if name == "rx" then simGate (.rx q a1.floatValue)
+    else if name == "ry" then simGate (.ry q a1.floatValue)
+    else simGate (.rz q a1.floatValue)
+
+def allocArray (name : String) : Nat → List Int → EM (List Int)
+  | 0, acc => pure acc
+  | n + 1, acc => do
+    let q ← allocateTrackedQubit name
+    allocArray name n (acc ++ [q])
+
+def measureAll (p : P) : List Int → EM Unit
+  | [] => pure ()
+  | qid :: rest => do
+    let _ ← measureQubit qid p
+    measureAll p rest
+
+/-- the default content of a sized array declared without initialiser -/
+def fillDefault (name : String) (v : Value) (n : Nat) : EM Value :=
+  match v.type with
+  | .BitArray => pure { v with bitArray := List.replicate n 0 }
+  | .BooleanArray => pure { v with boolArray := List.replicate n false }
+  | .LongArray => pure { v with longArray := List.replicate n 0 }
+  | .IntArray => pure { v with intArray := List.replicate n 0 }
+  | .FloatArray => pure { v with floatArray := List.replicate n 0.0 }
+  | .StringArray => pure { v with stringArray := List.replicate n "" }
+  | .CharArray => pure { v with charArray := List.replicate n 0 }
+  | .QubitArray => do
+    let qs ← allocArray name n []
+    pure { v with qubitArray := qs }
+  | _ => pure v
+
+/-- first half of a declaration: the value a variable of this type starts with and the array size (-1: none);
+`ev` evaluates the size expression -/
+def declDefault (ev : Expr → EM Value) (name : String) (ty : Ty) (noInit : Bool) (p : P) : EM (Value × Int) :=
+  match ty with
+  | .prim pn =>
+    if pn == "qubit" then do
+      let q ← allocateTrackedQubit name
+      pure ({ type := primTypeOf pn, qubit := q }, -1)
+    else pure ({ type := primTypeOf pn }, -1)
+  | .array elemTy size sizeExpr => do
+    let v0 : Value := match elemTy with
+      | .prim en => { type := arrayTypeOf en }
+      | _ => {}
+    let arraySize ←
+      if size < 0 then
+        match sizeExpr with
+        | some se => do
+          let sv ← ev se
+          if sv.type != .Int then rtErr p "array size must evaluate to an int"
+          else if sv.intValue < 0 then rtErr p "array size must be non-negative"
+          else pure sv.intValue
+        | none => pure size
+      else pure size
+    if arraySize ≥ 0 && noInit then do
+      let v ← fillDefault name v0 arraySize.toNat
+      pure (v, arraySize)
+    else pure (v0, arraySize)
+  | .named _ _ _ => pure ({ type := .Object }, -1)
+  | .void => pure ({}, -1)
+
+/-- second half: the initialiser (typed array initialisers convert element by element); returns the value and
+whether the variable counts as initialised -/
+def declInit (ev : Expr → EM Value) (evTyped : String → List Expr → Value → EM Value)
+    (ty : Ty) (init : Option Expr) (arraySize : Int) (v0 : Value) (p : P) : EM (Value × Bool) :=
+  match init with
+  | none => pure (v0, false)
+  | some ie =>
+    match ty with
+    | .array (.prim en) _ _ =>
+      if en == "qubit" then rtErr p "qubit[] cannot be initialised"
+      else
+        match ie with
+        | .arrLit elems _ =>
+          if arraySize ≥ 0 && (elems.length : Int) != arraySize then
+            rtErr p "array initialiser length does not match declared size"
+          else do
+            let v ← evTyped en elems { type := arrayTypeOf en }
+            pure (v, true)
+        | _ => do
+          let v ← ev ie
+          pure (v, true)
+    | .array _ _ _ => pure (v0, false)      -- array of a non-primitive element: the initialiser is not evaluated
+    | _ => do
+      let v ← ev ie
+      pure (v, true)
+
 mutual
 
 /-- `RuntimeEvaluator::eval` -/
@@ -635,47 +790,19 @@ def eval (fuel : Nat) (e : Expr) : EM Value :=
       match l with
       | .var name _ => do
         let current ← lookup name
-        let updated : Value :=
-          if op == "++" then
-            if current.type == .Float then { current with floatValue := current.floatValue + 1.0 }
-            else if current.type == .Long then { current with longValue := wrap64 (current.longValue + 1) }
-            else if current.type == .Int then { current with intValue := wrap32 (current.intValue + 1) }
-            else current
-          else if op == "--" then
-            if current.type == .Float then { current with floatValue := current.floatValue - 1.0 }
-            else if current.type == .Long then { current with longValue := wrap64 (current.longValue - 1) }
-            else if current.type == .Int then { current with intValue := wrap32 (current.intValue - 1) }
-            else current
-          else current
-        assignVar name updated
+        assignVar name (postfixUpdate op current)
         pure current
       | _ => pure {}
     | .call callee args p =>
       match callee with
       | .var name _ => do
         let argv ← evalArgs fuel args
-        if builtinGates.contains name then
-          let q0 := (argv.getD 0 {}).qubit
-          let a1 := argv.getD 1 {}
-          if name == "cx" then
-            ensureQubitActive q0 p
-            ensureQubitActive a1.qubit p
-            if q0 == a1.qubit then rtErr p "cx requires distinct control and target qubits"
-            simCx q0 a1.qubit
-          else
-            ensureQubitActive q0 p
-            let q := q0.toNat
-            if name == "h" then simGate (.h q)
-            else if name == "x" then simGate (.x q)
-            else if name == "y" then simGate (.y q)
-            else if name == "z" then simGate (.z q)
-            else if name == "rx" then simGate (.rx q a1.floatValue)
-            else if name == "ry" then simGate (.ry q a1.floatValue)
-            else simGate (.rz q a1.floatValue)
+        if builtinGates.contains name then do
+          applyBuiltin name argv p
           pure {}
-        else
-          let st ← get
-          match st.lookupFn name with
+        else do
+          let fn? ← lookupFnM name
+          match fn? with
           | some fn => call fuel fn argv
           | none => pure {}     -- no such function and no class context: falls out of the cascade
       | .member _ _ _ => throw (.unsupported "method call")
@@ -743,20 +870,14 @@ def evalTypedElems (fuel : Nat) (elem : String) (els : List Expr) (acc : Value) 
 def call (fuel : Nat) (fn : FuncDecl) (args : List Value) : EM Value :=
   match fuel with
   | 0 => throw .outOfFuel
-  | fuel + 1 => do
-    let savedFrame ← enterFrame
-    for (prm, a) in fn.params.zip args do
-      declareVar prm.name { value := a, tracked := false, initialized := true }
-    let prevReturn := (← get).hasReturn
-    modify fun st => { st with returnValue := {}, hasReturn := false }
-    match fn.body with
-    | .block stmts _ => execSeq fuel stmts
-    | other => exec fuel other
-    let ret := (← get).returnValue
-    endScope
-    leaveFrame savedFrame
-    modify fun st => { st with hasReturn := prevReturn }
-    pure ret
+  | fuel + 1 =>
+    withFrame (do
+      declareParams (fn.params.zip args)
+      clearReturn
+      match fn.body with
+      | .block stmts _ => execSeq fuel stmts
+      | other => exec fuel other
+      getReturnValue)
 
 /-- run statements until a `return` is hit -/
 def execSeq (fuel : Nat) (stmts : List Stmt) : EM Unit :=
@@ -767,7 +888,8 @@ def execSeq (fuel : Nat) (stmts : List Stmt) : EM Unit :=
     | [] => pure ()
     | s :: rest => do
       exec fuel s
-      if (← get).hasReturn then pure () else execSeq fuel rest
+      let r ← getHasReturn
+      if r then pure () else execSeq fuel rest
 
 /-- the `while (true)` of `for` -/
 def forLoop (fuel : Nat) (c inc : Expr) (body : Stmt) : EM Unit :=
@@ -776,10 +898,11 @@ def forLoop (fuel : Nat) (c inc : Expr) (body : Stmt) : EM Unit :=
   | fuel + 1 => do
     let cv ← eval fuel c
     if !isTruthy cv then pure ()
-    else
+    else do
       exec fuel body
-      if (← get).hasReturn then pure ()
-      else
+      let r ← getHasReturn
+      if r then pure ()
+      else do
         let _ ← eval fuel inc
         forLoop fuel c inc body
 
@@ -789,29 +912,10 @@ def whileLoop (fuel : Nat) (c : Expr) (body : Stmt) : EM Unit :=
   | fuel + 1 => do
     let cv ← eval fuel c
     if !isTruthy cv then pure ()
-    else
+    else do
       exec fuel body
-      if (← get).hasReturn then pure () else whileLoop fuel c body
-
-def allocArray (fuel : Nat) (name : String) (n : Nat) (acc : List Int) : EM (List Int) :=
-  match fuel with
-  | 0 => throw .outOfFuel
-  | fuel + 1 =>
-    match n with
-    | 0 => pure acc
-    | n + 1 => do
-      let q ← allocateTrackedQubit name
-      allocArray fuel name n (acc ++ [q])
-
-def measureAll (fuel : Nat) (qs : List Int) (p : P) : EM Unit :=
-  match fuel with
-  | 0 => throw .outOfFuel
-  | fuel + 1 =>
-    match qs with
-    | [] => pure ()
-    | qid :: rest => do
-      let _ ← measureQubit qid p
-      measureAll fuel rest p
+      let r ← getHasReturn
+      if r then pure () else whileLoop fuel c body
 
 /-- `RuntimeEvaluator::exec` -/
 def exec (fuel : Nat) (s : Stmt) : EM Unit :=
@@ -820,77 +924,20 @@ def exec (fuel : Nat) (s : Stmt) : EM Unit :=
   | fuel + 1 =>
     match s with
     | .varDecl name ty init _ _ isTracked p => do
-      let mut v : Value := {}
-      let mut arraySize : Int := -1
-      match ty with
-      | .prim pn =>
-        v := { type := primTypeOf pn }
-        if pn == "qubit" then
-          let q ← allocateTrackedQubit name
-          v := { v with qubit := q }
-      | .array elemTy size sizeExpr =>
-        match elemTy with
-        | .prim en => v := { type := arrayTypeOf en }
-        | _ => pure ()
-        arraySize := size
-        if size < 0 then
-          match sizeExpr with
-          | some se =>
-            let sv ← eval fuel se
-            if sv.type != .Int then rtErr p "array size must evaluate to an int"
-            arraySize := sv.intValue
-            if arraySize < 0 then rtErr p "array size must be non-negative"
-          | none => pure ()
-        if arraySize ≥ 0 && init.isNone then
-          let n := arraySize.toNat
-          match v.type with
-          | .BitArray => v := { v with bitArray := List.replicate n 0 }
-          | .BooleanArray => v := { v with boolArray := List.replicate n false }
-          | .LongArray => v := { v with longArray := List.replicate n 0 }
-          | .IntArray => v := { v with intArray := List.replicate n 0 }
-          | .FloatArray => v := { v with floatArray := List.replicate n 0.0 }
-          | .StringArray => v := { v with stringArray := List.replicate n "" }
-          | .CharArray => v := { v with charArray := List.replicate n 0 }
-          | .QubitArray =>
-            let qs ← allocArray fuel name n []
-            v := { v with qubitArray := qs }
-          | _ => pure ()
-      | .named _ _ _ => v := { type := .Object }
-      | .void => pure ()
-      let mut initialized := false
-      match init with
-      | none => pure ()
-      | some ie =>
-        match ty with
-        | .array (.prim en) _ _ =>
-          if en == "qubit" then rtErr p "qubit[] cannot be initialised"
-          match ie with
-          | .arrLit elems _ =>
-            if arraySize ≥ 0 && (elems.length : Int) != arraySize then
-              rtErr p "array initialiser length does not match declared size"
-            v ← evalTypedElems fuel en elems { type := arrayTypeOf en }
-            initialized := true
-          | _ =>
-            v ← eval fuel ie
-            initialized := true
-        | .array _ _ _ => pure ()      -- array of a non-primitive element: the initialiser is not evaluated
-        | _ =>
-          v ← eval fuel ie
-          initialized := true
-      declareVar name { value := v, tracked := isTracked, initialized := initialized }
-    | .block stmts _ => do
-      beginScope
-      execSeq fuel stmts
-      endScope
+      let d ← declDefault (eval fuel) name ty init.isNone p
+      let vi ← declInit (eval fuel) (evalTypedElems fuel) ty init d.2 d.1 p
+      declareVar name { value := vi.1, tracked := isTracked, initialized := vi.2 }
+    | .block stmts _ => withScope (execSeq fuel stmts)
     | .expr e => do
       let _ ← eval fuel e
-    | .ret v _ => do
+      pure ()
+    | .ret v _ =>
       match v with
-      | some e =>
+      | some e => do
         let rv ← eval fuel e
-        modify fun st => { st with returnValue := rv }
-      | none => pure ()
-      modify fun st => { st with hasReturn := true }
+        setReturnValue rv
+        setHasReturn true
+      | none => setHasReturn true
     | .ifs c t e => do
       let cv ← eval fuel c
       if isTruthy cv then exec fuel t
@@ -900,17 +947,16 @@ def exec (fuel : Nat) (s : Stmt) : EM Unit :=
     | .ternary c t e => do
       let cv ← eval fuel c
       if isTruthy cv then exec fuel t else exec fuel e
-    | .fors init c inc body => do
-      beginScope
-      match init with
-      | some i => exec fuel i
-      | none => pure ()
-      forLoop fuel c inc body
-      endScope
+    | .fors init c inc body =>
+      withScope (do
+        match init with
+        | some i => exec fuel i
+        | none => pure ()
+        forLoop fuel c inc body)
     | .whiles c body => whileLoop fuel c body
     | .echo v _ => do
       let val ← eval fuel v
-      if (← get).echoEnabled then modify fun st => { st with echo := valueToString val :: st.echo }
+      echoLine (valueToString val)
     | .reset t p => do
       let q ← eval fuel t
       ensureQubitExists q.qubit p
@@ -918,9 +964,10 @@ def exec (fuel : Nat) (s : Stmt) : EM Unit :=
       unmarkMeasured q.qubit
     | .measure q p => do
       let qv ← eval fuel q
-      if qv.type == .QubitArray then measureAll fuel qv.qubitArray p
-      else
+      if qv.type == .QubitArray then measureAll p qv.qubitArray
+      else do
         let _ ← measureQubit qv.qubit p
+        pure ()
     | .destroy _ _ => throw (.unsupported "destroy")
     | .assign name v _ => do
       let val ← eval fuel v
